@@ -192,6 +192,27 @@ fn mixed_value_sets(col: &Arc<RecCollector>, out: &mut Out) -> Result<(), Value>
         drop(s);
         col.take();
     }
+    // `Span::record` with a `Field` key taken from ANOTHER callsite that declares a field of the
+    // same name: an undeclared field for this span, ignored (also: `has_field`, `field`)
+    for (i, name) in names.iter().enumerate() {
+        sa.record(&fb[i], 77u64);
+        out.evals += 1;
+        out.count("record_calls_with_a_foreign_callsites_field_key", 1);
+        let visited: Vec<Vec<Seen>> = col.take().into_iter().filter_map(|g| if let Got::Record { fields, .. } = g { Some(fields) } else { None }).collect();
+        if visited.iter().any(|f| !f.is_empty()) {
+            return Err(json!({"through": "Span::record(&Field of another callsite, value)", "field_name": name,
+                              "visited": visited.iter().map(|f| f.iter().map(|s| s.to_json()).collect::<Vec<_>>()).collect::<Vec<_>>(), "expected": "nothing visited"}));
+        }
+        if sa.has_field(&fb[i]) {
+            return Err(json!({"through": "Span::has_field(&Field of another callsite)", "field_name": name, "answer": true}));
+        }
+        // its own key still works
+        sa.record(&fa[i], 78u64);
+        let visited: Vec<Vec<(String, u64)>> = col.take().into_iter().filter_map(|g| if let Got::Record { fields, .. } = g { Some(fields.iter().map(|s| (s.name.clone(), if let Rec::U64(v) = &s.rec { *v } else { u64::MAX })).collect()) } else { None }).collect();
+        if visited != vec![vec![(name.to_string(), 78u64)]] {
+            return Err(json!({"through": "Span::record(&own Field, value)", "field_name": name, "visited": format!("{visited:?}")}));
+        }
+    }
     Ok(())
 }
 
